@@ -54,6 +54,17 @@ type FuncContract struct {
 	Reveal     []string
 	Uses       []string
 	Allocates  []string
+	GhostSets  []GhostSet
+	CallAsserts map[string][]*Clause // "callee#k" -> assertions checked right before that call site
+}
+
+// GhostSet: a ghost assignment performed when the function returns (definition of ghost state, not an assumption).
+type GhostSet struct {
+	LHS  Expr
+	RHS  Expr
+	Text string
+	File string
+	Line int
 }
 
 type SpecFn struct {
@@ -190,7 +201,7 @@ func readContractLines(path string, requirePrefix bool) ([]rawLine, string, erro
 var clauseKeywords = map[string]bool{"requires": true, "ensures": true, "invariant": true, "modifies": true, "pure": true,
 	"trusted": true, "may_panic": true, "loop": true, "func": true, "extern": true, "functype": true, "lemma": true,
 	"sort": true, "fn": true, "axiom": true, "ghost": true, "pkgframe": true, "guarded": true, "lockinv": true,
-	"acquires": true, "releases": true, "opaque": true, "reveal": true, "uses": true, "allocates": true, "noaxioms": true, "crashinv": true, "note": true, "recfn": true, "props": true}
+	"acquires": true, "releases": true, "opaque": true, "reveal": true, "uses": true, "allocates": true, "noaxioms": true, "ghostset": true, "before_call": true, "crashinv": true, "note": true, "recfn": true, "props": true}
 
 func firstWord(s string) (string, string) {
 	s = strings.TrimSpace(s)
@@ -347,6 +358,37 @@ func parseDirectives(lines []rawLine, pkgPath string, spec *SpecSet, contracts m
 			}
 		case "sort":
 			spec.Sorts[strings.TrimSpace(d.rest)] = true
+		case "before_call":
+			// before_call callee#k [label] expr
+			if cur == nil {
+				return fmt.Errorf("%s:%d: before_call outside func", d.file, d.line)
+			}
+			site, rest := firstWord(d.rest)
+			c, err := mkClause("assert", dir{"assert", rest, d.file, d.line})
+			if err != nil {
+				return err
+			}
+			if cur.CallAsserts == nil {
+				cur.CallAsserts = map[string][]*Clause{}
+			}
+			cur.CallAsserts[site] = append(cur.CallAsserts[site], c)
+		case "ghostset":
+			if cur == nil {
+				return fmt.Errorf("%s:%d: ghostset outside func", d.file, d.line)
+			}
+			i := strings.Index(d.rest, ":=")
+			if i < 0 {
+				return fmt.Errorf("%s:%d: ghostset needs 'lhs := expr'", d.file, d.line)
+			}
+			lhs, err := ParseExpr(d.rest[:i])
+			if err != nil {
+				return fmt.Errorf("%s:%d: %v", d.file, d.line, err)
+			}
+			rhs, err := ParseExpr(d.rest[i+2:])
+			if err != nil {
+				return fmt.Errorf("%s:%d: %v", d.file, d.line, err)
+			}
+			cur.GhostSets = append(cur.GhostSets, GhostSet{LHS: lhs, RHS: rhs, Text: d.rest, File: d.file, Line: d.line})
 		case "noaxioms":
 			if curLemma != nil {
 				curLemma.NoAxioms = true
